@@ -270,10 +270,14 @@ class Parser:
         compiled_hints = None
         if hints_file.exists():
             hints_file_compiled = hints_file.with_suffix(".pgec")
-            if (
-                not hints_file_compiled.exists()
-                or grammar_file.stat().st_mtime > hints_file_compiled.stat().st_mtime
-                or hints_file.stat().st_mtime > hints_file_compiled.stat().st_mtime
+            # Compiled hints hold LR state ids. Thus, they are stale if older
+            # than the examples file or any of the grammar files (root or
+            # imported).
+            source_files = [hints_file, grammar_file]
+            source_files.extend(Path(f) for f in self.grammar.imported_files)
+            if not hints_file_compiled.exists() or any(
+                f.stat().st_mtime > hints_file_compiled.stat().st_mtime
+                for f in source_files
             ):
                 # Compilation is needed
                 compiled_hints = compile_errors(hints_file)
